@@ -39,6 +39,9 @@ Definition rep_eqb (a b : rep Z) : bool :=
   | RM x, RM y => mi_eqb x y
   | RL x, RL y => list_eqb lrow_eqb x y
   | RT x, RT y => list_eqb (list_eqb Z.eqb) x y
+  | RNI i x, RNI j y => list_eqb Z.eqb i j && nested_eqb x y
+  | RNI i x, RN y | RN y, RNI i x =>      (* RN = the default labels 0..n-1 *)
+      list_eqb Z.eqb i (ziota 0 (length (n_rows y))) && nested_eqb x y
   | _, _ => false
   end.
 
